@@ -4,6 +4,7 @@ import (
 	"encoding/json"
 	"errors"
 	"fmt"
+	"runtime"
 	"sort"
 	"strings"
 	"sync"
@@ -42,19 +43,51 @@ type c14ev struct {
 	val   string // canonical value written / read
 	found bool   // Get/Exists: key present
 	err   bool   // the tier returned an error other than not-found
+	opid  int64  // call stamp of the facade operation whose own goroutine did this; 0 = a background goroutine (cache fill)
 }
 
 type c14log struct {
 	w          *simrt.World
 	mu         sync.Mutex
 	ev         []c14ev
-	faultStamp int64 // stamp of the injected tier failure, 0 = none fired
+	faultStamp int64            // stamp of the injected tier failure, 0 = none fired
+	cur        map[uint64]int64 // goroutine id -> facade operation it is executing
+}
+
+// c14goid returns the id of the calling goroutine (only used to tell an operation's own tier
+// calls from those of goroutines it spawned).
+func c14goid() uint64 {
+	var buf [64]byte
+	n := runtime.Stack(buf[:], false)
+	var id uint64
+	for _, ch := range buf[10:n] {
+		if ch < '0' || ch > '9' {
+			break
+		}
+		id = id*10 + uint64(ch-'0')
+	}
+	return id
+}
+
+func (l *c14log) begin(opid int64) {
+	l.mu.Lock()
+	if l.cur == nil {
+		l.cur = map[uint64]int64{}
+	}
+	l.cur[c14goid()] = opid
+	l.mu.Unlock()
+}
+
+func (l *c14log) end() {
+	l.mu.Lock()
+	delete(l.cur, c14goid())
+	l.mu.Unlock()
 }
 
 func (l *c14log) add(tier, class, op, key, val string, found bool, err error) {
 	l.mu.Lock()
 	defer l.mu.Unlock()
-	e := c14ev{stamp: l.w.Stamp(), tier: tier, class: class, op: op, key: key, val: val, found: found}
+	e := c14ev{stamp: l.w.Stamp(), tier: tier, class: class, op: op, key: key, val: val, found: found, opid: l.cur[c14goid()]}
 	if err != nil && !errors.Is(err, types.ErrKeyNotFound) {
 		e.err = true
 		if errors.Is(err, simstore.ErrInjected) && l.faultStamp == 0 {
@@ -458,6 +491,264 @@ func (e *c14env) lateWriteback(key, val string, before int64) bool {
 	return false
 }
 
+// c14mechanisms lists, in order of precedence, the known mechanisms that the tier-operation log shows
+// for key before stamp T (the instant the history of the register became non-linearizable):
+//
+//	late-writeback        a cache fill from the persistent tier (a cache Set done by a background goroutine)
+//	                      raced a write: a different Set/Delete reached a tier between the fill's source read
+//	                      and the fill, or the fill landed between the two tier halves of such a write;
+//	                      and the filled value was afterwards served from that cache
+//	other-node-cache      the key's cache is private to a node and an operation on another node wrote the key
+//	<fault class>         the injected tier failure fired on this key
+//	concurrent-writes     two writes reached the persistent tier and the cache tier in opposite orders
+//	persistent-tier-ahead-of-cache-during-set
+//	                      a read fell through to the persistent tier and saw the value of a Set whose
+//	                      cache half had not happened yet, and after that the cache still served the previous value
+//	cache-ttl-expiry      a cache entry disappeared without a Delete (expired) inside the window
+//
+// staleVal, when known, restricts late-writeback to fills carrying that value. rnode is the node of the
+// read that completed the anomaly.
+func (e *c14env) c14mechanisms(key, cat string, hs []c14h, T int64, staleVal string, rnode int) []string {
+	e.lg.mu.Lock()
+	var ev []c14ev
+	for _, x := range e.lg.ev {
+		if x.key == key && x.stamp < T {
+			ev = append(ev, x)
+		}
+	}
+	e.lg.mu.Unlock()
+	var out []string
+	valOf := map[int64]string{} // client write op -> value it writes ("" = delete)
+	isWrite := map[int64]bool{}
+	for i := range hs {
+		if hs[i].op.Kind == "Set" || hs[i].op.Kind == "Delete" {
+			isWrite[hs[i].call] = hs[i].client != "seed"
+			valOf[hs[i].call] = hs[i].op.Val
+		}
+	}
+	// late-writeback
+	// handles of the cluster cache share one backend; a private cache is its own tier
+	ctier := func(t string) string {
+		if strings.HasSuffix(t, ".local") {
+			return t
+		}
+		return "shared"
+	}
+	lateFor := func(only string) bool {
+		late := false
+		for fi, f := range ev {
+			if f.class != "cache" || f.op != "Set" || f.opid != 0 || f.err || (only != "" && f.val != only) {
+				continue
+			}
+			// the filled value must have been served from that cache afterwards, else the fill is harmless
+			served := false
+			for _, h := range ev[fi+1:] {
+				if h.class != "cache" || h.err || ctier(h.tier) != ctier(f.tier) {
+					continue
+				}
+				if (h.op == "Set" && h.val != f.val) || h.op == "Delete" || h.op == "Evict" {
+					break // replaced before anybody read it
+				}
+				if (h.op == "Get" && h.found && h.val == f.val) || (h.op == "Exists" && h.found) {
+					served = true
+					break
+				}
+			}
+			if !served {
+				continue
+			}
+			var src int64
+			for _, g := range ev[:fi] {
+				if g.class == "persist" && g.op == "Get" && g.found && g.val == f.val {
+					src = g.stamp
+				}
+			}
+			span := map[int64][2]int64{} // write op -> first/last tier event
+			for _, x := range ev {
+				if !isWrite[x.opid] || valOf[x.opid] == f.val || x.err {
+					continue
+				}
+				if x.op != "Set" && x.op != "Delete" {
+					continue
+				}
+				if x.stamp > src && x.stamp < f.stamp {
+					late = true // a different write reached a tier between the fill's source read and the fill
+				}
+				sp, ok := span[x.opid]
+				if !ok {
+					sp = [2]int64{x.stamp, x.stamp}
+				}
+				if x.stamp < sp[0] {
+					sp[0] = x.stamp
+				}
+				if x.stamp > sp[1] {
+					sp[1] = x.stamp
+				}
+				span[x.opid] = sp
+			}
+			for _, sp := range span {
+				if sp[0] < f.stamp && f.stamp < sp[1] {
+					late = true // the fill landed between the tier halves of a different write
+				}
+			}
+		}
+		return late
+	}
+	_ = staleVal
+	if lateFor("") {
+		out = append(out, "late-writeback")
+	}
+	// other-node-cache
+	if e.cacheIsNodeLocal(cat) {
+		_ = rnode
+		foreign := false
+		for i := range hs {
+			if !c14isWrite(hs[i].op.Kind) || hs[i].client == "seed" || hs[i].call >= T {
+				continue
+			}
+			for j := range hs {
+				if hs[j].client != "seed" && hs[j].call < T && hs[j].op.Node != hs[i].op.Node {
+					foreign = true // a node other than the writer's took part: its private cache is not told
+				}
+			}
+		}
+		if foreign {
+			out = append(out, "other-node-cache")
+		}
+	}
+	// injected fault
+	if e.faultHit(key, T) {
+		out = append(out, e.faultClass())
+	}
+	// concurrent-writes: per write op the stamp at which it reached the persistent tier and its cache tier
+	type reach struct {
+		p, c  int64
+		ctier string
+	}
+	rs := map[int64]*reach{}
+	var ids []int64
+	for _, x := range ev {
+		if !isWrite[x.opid] || x.err || (x.op != "Set" && x.op != "Delete") {
+			continue
+		}
+		r := rs[x.opid]
+		if r == nil {
+			r = &reach{}
+			rs[x.opid] = r
+			ids = append(ids, x.opid)
+		}
+		if x.class == "persist" {
+			r.p = x.stamp
+		} else {
+			r.c, r.ctier = x.stamp, x.tier
+		}
+	}
+	crossed := false
+	for i, a := range ids {
+		for _, b := range ids[i+1:] {
+			ra, rb := rs[a], rs[b]
+			if ra.p == 0 || rb.p == 0 || ra.c == 0 || rb.c == 0 {
+				continue
+			}
+			if e.cacheIsNodeLocal(cat) && ra.ctier != rb.ctier {
+				continue // different private caches: that is other-node-cache
+			}
+			if (ra.p < rb.p) != (ra.c < rb.c) {
+				crossed = true
+			}
+		}
+	}
+	if crossed {
+		out = append(out, "concurrent-writes")
+	}
+	// persistent-tier-ahead-of-cache-during-set
+	ahead := false
+	for _, id := range ids {
+		r := rs[id]
+		if r.p == 0 || valOf[id] == "" {
+			continue
+		}
+		for _, g := range ev {
+			if !(g.class == "persist" && g.op == "Get" && g.found && g.val == valOf[id] && g.opid != id && g.stamp > r.p && (r.c == 0 || g.stamp < r.c)) {
+				continue
+			}
+			// ... and after that, still before the Set's cache half, the cache served the previous value
+			for _, h := range ev {
+				if h.class == "cache" && h.op == "Get" && h.found && h.val != valOf[id] && h.stamp > g.stamp && (r.c == 0 || h.stamp < r.c) {
+					ahead = true
+				}
+			}
+		}
+	}
+	if ahead {
+		out = append(out, "persistent-tier-ahead-of-cache-during-set")
+	}
+	// cache-ttl-expiry
+	last := map[string]string{} // cache tier -> last effective mutation
+	expired := false
+	for _, x := range ev {
+		if x.class != "cache" || x.err {
+			continue
+		}
+		switch x.op {
+		case "Set", "Delete", "Evict":
+			last[ctier(x.tier)] = x.op
+		case "Get", "Exists":
+			if !x.found && last[ctier(x.tier)] == "Set" {
+				expired = true
+			}
+		}
+	}
+	if expired {
+		// an expiry only reveals that the tiers disagree; it is named when nothing explains why they do
+		out = append(out, "cache-ttl-expiry")
+	}
+	return out
+}
+
+// c14anomalyStamp returns the return stamp of the operation that makes the register history
+// non-linearizable: the smallest T such that the operations invoked up to T (those not returned by
+// T count as pending: writes may still take effect, reads are dropped) cannot be linearized.
+func c14anomalyStamp(hs []c14h) (int64, *c14h) {
+	var rets []int64
+	var maxStamp int64
+	for _, h := range hs {
+		if h.out != "err" {
+			rets = append(rets, h.ret)
+		}
+		if h.ret > maxStamp {
+			maxStamp = h.ret
+		}
+	}
+	sort.Slice(rets, func(i, j int) bool { return rets[i] < rets[j] })
+	for _, T := range rets {
+		var ops []porcupine.Operation
+		var at *c14h
+		for i := range hs {
+			h := &hs[i]
+			if h.call > T {
+				continue
+			}
+			pending := h.ret > T || h.out == "err"
+			if pending && !c14isWrite(h.op.Kind) {
+				continue
+			}
+			ret := h.ret
+			if pending {
+				ret = maxStamp + 1 + int64(i)
+			}
+			if h.ret == T {
+				at = h
+			}
+			ops = append(ops, porcupine.Operation{ClientId: i, Input: h.op, Call: h.call, Output: h.out, Return: ret})
+		}
+		if !porcupine.CheckOperations(c14RegModel(), ops) {
+			return T, at
+		}
+	}
+	return maxStamp + 1, nil
+}
+
 // faultClass names the injected failure that fired: which tier class and which operation.
 func (e *c14env) faultClass() string {
 	e.lg.mu.Lock()
@@ -597,6 +888,8 @@ func (e *c14env) exec(client string, o c14op) c14h {
 	h := e.nodes[o.Node].h
 	w.Yield("c14.invoke")
 	rec := c14h{client: client, op: o, call: w.Stamp()}
+	e.lg.begin(rec.call)
+	defer e.lg.end()
 	switch o.Kind {
 	case "Set":
 		if err := h.Set(o.Key, o.Val, o.TTL); err != nil {
@@ -1064,50 +1357,30 @@ func c14ClassifyRegister(e *c14env, hs []c14h) (pattern, cause, why string) {
 		}
 	}
 	sort.SliceStable(reads, func(i, j int) bool { return reads[i].call < reads[j].call })
-	attribute := func(r *c14h, sup *c14h, overlapWrites bool) string {
-		key := r.op.Key
+	T, at := c14anomalyStamp(hs)
+	mechs := ""
+	defer func() {
+		if mechs != "" {
+			why += "; " + mechs
+		}
+	}()
+	attribute := func(r *c14h, sup *c14h, staleRead bool) string {
+		_ = sup
+		_ = staleRead
 		val := ""
-		if strings.HasPrefix(r.out, "v:") {
-			val = r.out[2:]
-		}
-		foreign := false
-		for i := range hs {
-			if c14isWrite(hs[i].op.Kind) && hs[i].op.Node != r.op.Node {
-				foreign = true
+		rnode := r.op.Node
+		if at != nil {
+			rnode = at.op.Node
+			if strings.HasPrefix(at.out, "v:") {
+				val = at.out[2:] // the value returned by the read that completes the anomaly: fills carrying it matter most
 			}
 		}
-		wb := val == "" && e.lateWriteback(key, "", r.ret)
-		if val != "" {
-			if sx := setOf[val]; sx != nil && sup != nil {
-				// a cache fill with the stale value after its own Set had returned and after the superseding write began
-				after := sx.ret
-				if sup.call > after {
-					after = sup.call
-				}
-				wb = e.fillBetween(key, val, after, r.ret)
-			} else {
-				wb = e.lateWriteback(key, val, r.ret)
-			}
+		ms := e.c14mechanisms(r.op.Key, r.op.Cat, hs, T, val, rnode)
+		mechs = fmt.Sprintf("the history first becomes non-linearizable when %v returns; mechanisms present in the tier log before @%d: %v", at, T, ms)
+		if len(ms) == 0 {
+			return "unattributed"
 		}
-		switch {
-		case wb:
-			return "late-writeback"
-		case e.cacheIsNodeLocal(r.op.Cat) && foreign:
-			return "other-node-cache"
-		case e.faultHit(key, r.ret):
-			return e.faultClass()
-		case overlapWrites:
-			return "concurrent-writes"
-		}
-		return "unattributed"
-	}
-	overlapping := func(a *c14h) bool {
-		for _, b := range writes {
-			if a != b && a.call < b.ret && b.call < a.ret {
-				return true
-			}
-		}
-		return false
+		return ms[0]
 	}
 	// 1. a read returned a value although a later write (begun after that value's write had returned) had completed before the read began
 	for _, r := range reads {
@@ -1125,7 +1398,7 @@ func c14ClassifyRegister(e *c14env, hs []c14h) (pattern, cause, why string) {
 				if wr.op.Kind == "Delete" {
 					p = "resurrected-after-delete"
 				}
-				return p, attribute(r, wr, false), fmt.Sprintf("%s returned the value of %s although %s had completed before the read began", r, sx, wr)
+				return p, attribute(r, wr, true), fmt.Sprintf("%s returned the value of %s although %s had completed before the read began", r, sx, wr)
 			}
 		}
 	}
@@ -1184,7 +1457,7 @@ func c14ClassifyRegister(e *c14env, hs []c14h) (pattern, cause, why string) {
 			if sy == nil || !(sy.ret < sx.call) {
 				continue
 			}
-			return "old-value-after-newer-was-read", attribute(r2, sx, overlapping(sx) || overlapping(sy)),
+			return "old-value-after-newer-was-read", attribute(r2, sx, true),
 				fmt.Sprintf("%s returned the value of %s after %s had already returned the value of the later %s", r2, sy, r1, sx)
 		}
 	}
@@ -1222,13 +1495,7 @@ func c14ClassifyRegister(e *c14env, hs []c14h) (pattern, cause, why string) {
 					del = d
 				}
 			}
-			ov := false
-			for _, wr := range writes {
-				if (sy == nil || wr == sy) && overlapping(wr) {
-					ov = true // the value's own Set raced with another write (tiers reached in opposite orders)
-				}
-			}
-			return "deleted-value-back-after-absence-was-read", attribute(r2, del, ov),
+			return "deleted-value-back-after-absence-was-read", attribute(r2, del, sy != nil),
 				fmt.Sprintf("%s answered %s after %s had already found the key absent and no Set can lie in between", r2, r2.out, r1)
 		}
 	}
@@ -1246,27 +1513,15 @@ func c14ClassifyRegister(e *c14env, hs []c14h) (pattern, cause, why string) {
 				}
 			}
 			if quiet {
-				ov := false
-				for _, wr := range writes {
-					if overlapping(wr) {
-						ov = true
-					}
-				}
-				return "value-flips-without-write", attribute(r2, nil, ov), fmt.Sprintf("%s and then %s disagree although every write had completed before the first of them began", r1, r2)
+				return "value-flips-without-write", attribute(r2, nil, false), fmt.Sprintf("%s and then %s disagree although every write had completed before the first of them began", r1, r2)
 			}
-		}
-	}
-	ov := false
-	for _, wr := range writes {
-		if overlapping(wr) {
-			ov = true
 		}
 	}
 	if len(reads) == 0 {
 		return "other", "unattributed", "no reads"
 	}
 	last := reads[len(reads)-1]
-	return "other", attribute(last, nil, ov), "no simple stale-read pattern; see history"
+	return "other", attribute(last, nil, false), "no simple stale-read pattern; see history"
 }
 
 func c14readClass(out string) string {
